@@ -1476,7 +1476,7 @@ def shifted(p, weeks):
 
 
 NASTY = ["rev", "a", "ab", "abc", "task", "t", "t1", "t10", "x_rev", "Rev2", "end_", "start_", "res", "r", "r1", "r10", "p", "plan",
-         "milestone_", "depends_", "m", "mm", "_a", "A", "aA", "z9", "shift_", "proj"]
+         "milestone_", "depends_", "m", "mm", "_a", "A", "aA", "z9", "shift_", "proj", "monday", "sunrise", "friday_crew", "satellite", "tues", "wedge"]
 
 
 def renamed(p, rng, reuse_across_parents=False):
